@@ -256,6 +256,27 @@ def init (flags k kc c cc : Nat) : St :=
 bits (IORING_SQ_CQ_OVERFLOW = bit 1, IORING_SQ_TASKRUN = bit 2) say -/
 def needsWakeup (flagsWord : Nat) : Bool := flagsWord % 2 == 1
 
+/-! ## API borrow contracts the model relies on
+
+Assumptions of the completion-side statements that are not behaviour of any function but live in the TYPE of
+`get_next_cqe(&mut self) -> Option<&IoUringCompletionQueueEntry>`: the returned reference keeps the ring mutably
+borrowed.  They are tied to the code by compile-contract probes (harness/c17/borrow-probes: programs that violate a
+contract must be REJECTED by the borrow checker; checks/c17_borrow.py writes the outcome to Gen/RingBorrow.lean). -/
+structure BorrowContract where
+  /-- the completion reference is dead at the next `get_next_cqe` call (at most ONE outstanding reference): what the lazy
+  slot release and `cq_content_held` / `K2Inv` need -/
+  cqeDeadAtNextReap : Bool
+  /-- no other `&mut self` ring method while the reference lives (the op language of the split-reap model `kstep2`) -/
+  cqeBlocksRingMethods : Bool
+  /-- the reference cannot outlive the ring (`Drop` unmaps the completion ring) -/
+  cqeDeadAtDrop : Bool
+  /-- the positive controls compile and run: the probe verdicts come from a working build environment -/
+  controlsCompileAndRun : Bool
+  deriving DecidableEq, Repr
+
+def BorrowContract.holds (b : BorrowContract) : Bool :=
+  b.cqeDeadAtNextReap && b.cqeBlocksRingMethods && b.cqeDeadAtDrop && b.controlsCompileAndRun
+
 /-! ## C18: the KERNEL CONTRACT composed with the ring model
 
 Everything above is the wrapper (`getNextSqeSlot`, `flushSubmissionQueue`, `getNextCqe`, mirrored from
